@@ -3,7 +3,9 @@ package c04
 import (
 	"errors"
 	"fmt"
+	"os"
 	"runtime/debug"
+	"sort"
 	"strings"
 
 	"perkeep.org/pkg/blob"
@@ -30,6 +32,10 @@ type world struct {
 	crashed bool // a call was refused
 	quiet   bool // harness observation in progress: hooks are transparent
 	labels  []string
+	refused string // label of the first refused call
+	// runaway guard: zips stored by the current client operation
+	largeInOp int
+	runaway   bool
 	// observe, if set, runs before every mutating call that is let through
 	// (the devices are exactly in the state "k calls of this run done").
 	observe func(k int, label string)
@@ -43,7 +49,14 @@ func getWorld() *world {
 	if theWorld != nil {
 		return theWorld
 	}
-	debug.SetMemoryLimit(3 << 30)
+	debug.SetMemoryLimit(1 << 30)
+	debug.SetGCPercent(400) // the live heap is a few tens of MiB; the batteries allocate ~10 MiB each
+	if os.Getenv("VERIF_VERBOSE") == "" {
+		// blobpacked logs every pack through its own logger on os.Stderr
+		if dn, err := os.OpenFile(os.DevNull, os.O_WRONLY, 0); err == nil {
+			os.Stderr = dn
+		}
+	}
 	w := &world{small: hs.NewMem("small"), large: hs.NewMem("large"), kv: hs.NewKV("c04-meta"), ld: hs.NewLoader(), crashAt: -1}
 	w.small.Hook = w.memHook
 	w.large.Hook = w.memHook
@@ -65,12 +78,21 @@ func (w *world) reset(maxZip int) {
 }
 
 func (w *world) arm(crashAt int) {
-	w.armed, w.n, w.crashAt, w.crashed, w.labels = true, 0, crashAt, false, nil
+	w.armed, w.n, w.crashAt, w.crashed, w.labels, w.refused = true, 0, crashAt, false, nil, ""
 }
 
 func (w *world) disarm() { w.armed, w.crashAt, w.crashed, w.observe = false, -1, false, nil }
 
+// maxZipsPerOp is far above what any explored operation stores (at most 4 zips).
+const maxZipsPerOp = 16
+
 func (w *world) memHook(store, op string, br blob.Ref) error {
+	if store == "large" && op == "receive" && !w.quiet {
+		if w.largeInOp++; w.largeInOp > maxZipsPerOp {
+			w.runaway = true
+			return errFrozen
+		}
+	}
 	switch op {
 	case "receive", "remove", "remove1":
 		return w.mutating(store + "." + op)
@@ -99,6 +121,9 @@ func (w *world) mutating(label string) error {
 	k := w.n
 	w.n++
 	if w.crashAt >= 0 && k >= w.crashAt {
+		if !w.crashed {
+			w.refused = label
+		}
 		w.crashed = true
 		return errFrozen
 	}
@@ -128,8 +153,23 @@ func (w *world) restore(s *snap) {
 }
 
 // key is a canonical description of the device contents.
+// The d: rows of meta hold the wall-clock time of a removal; their values are masked.
 func (w *world) key() string {
-	return "S{" + w.small.Dump() + "}L{" + w.large.Dump() + "}M{" + w.kv.Dump() + "}"
+	m := w.kv.Snapshot()
+	keys := make([]string, 0, len(m))
+	for k := range m {
+		keys = append(keys, k)
+	}
+	sort.Strings(keys)
+	var sb strings.Builder
+	for _, k := range keys {
+		v := m[k]
+		if strings.HasPrefix(k, "d:") {
+			v = "T"
+		}
+		sb.WriteString(k + "=" + v + ";")
+	}
+	return "S{" + w.small.Dump() + "}L{" + w.large.Dump() + "}M{" + sb.String() + "}"
 }
 
 type restartMode int
@@ -149,23 +189,21 @@ func (m restartMode) String() string { return modeNames[m] }
 func (m restartMode) fromZips() bool { return m != modeNone }
 
 // open builds a new blobpacked instance over the devices ("process start").
-func (w *world) open(mode restartMode) (sto blobserver.Storage, err error) {
+// With quiet the start-up writes (reindex) are outside the crash-point numbering.
+func (w *world) open(mode restartMode, quiet bool) (sto blobserver.Storage, err error) {
 	defer func() {
 		if e := recover(); e != nil {
 			err = fmt.Errorf("panic: %v", e)
 		}
 	}()
 	was := w.quiet
-	w.quiet = true // start-up writes (reindex) are not part of the crash-point numbering
+	w.quiet = quiet
 	defer func() { w.quiet = was }()
 	switch mode {
-	case modeFast:
+	case modeFast, modeWipedFast:
 		blobpacked.SetRecovery(blobpacked.FastRecovery)
 	case modeFull:
 		blobpacked.SetRecovery(blobpacked.FullRecovery)
-	case modeWipedFast:
-		w.kv.Wipe()
-		blobpacked.SetRecovery(blobpacked.FastRecovery)
 	}
 	defer blobpacked.SetRecovery(blobpacked.NoRecovery)
 	sto, err = w.ld.Create("blobpacked", map[string]any{"smallBlobs": "/small/", "largeBlobs": "/large/", "metaIndex": hs.KVConf(w.kv), "keepGoing": true})
